@@ -32,8 +32,8 @@ class C19(BaseCheck):
                  'member data is well-formed JSON')
   QUICK_CASES = 960
   THOROUGH_CASES = 60000
-  QUICK_WALL = 50
-  THOROUGH_WALL = 420
+  QUICK_WALL = 180
+  THOROUGH_WALL = 1800
   MIN_DISTINCT = 10
 
   def run_case(self, env, rng, idx, tier):
